@@ -6,8 +6,13 @@
 //! cache persists over the history) or an *uncached* handle on the same storage (the repository
 //! changes behind the cache), interleaved with *plant* operations on the cache directory: stale
 //! files (valid files of ids since removed from the repository), truncated / over-long files
-//! under existing ids, and foreign files (non-hex names, `-tmp-` leftovers, sub-directories,
-//! directories where a cache file should be, hex-named files of ids the repository never had).
+//! under existing ids (valid prefix, valid bytes + suffix, or other bytes of another length; never
+//! same-size different content), and foreign files (non-hex names, `-tmp-` leftovers,
+//! sub-directories, directories where a cache file should be, hex-named files of ids the
+//! repository never had, at their canonical place or misplaced).
+//!
+//! Three input-side predicates of (suspected) findings: see `KEY_FULL_ID`, `KEY_MISPLACED`,
+//! `KEY_GARBAGE_PACK`. `VP_ASSUME_KNOWN=<key>,<key>` (debugging only) skips matching cases.
 //!
 //! Oracle (differential): the same history with every operation uncached, started from a
 //! byte-identical copy of the initial storage. Operation by operation the results must be equal
@@ -1261,12 +1266,12 @@ pub fn spec() -> PropSpec {
     PropSpec {
         id: "C19",
         level: "exploration",
-        rule: "proptest: configuration x source tree x history of 3–11 (quick) / 3–18 (thorough) steps after an initial backup through the cached handle. Steps: backup of the edited source (with/without parent), forget of live snapshots, prune (generated options; 60 % forced to max-unused 0 / unlimited repack), check (read-data, trust-cache), snapshot lookup by `latest`/`latest~N`, by id prefix (8–40 hex chars; both lookup APIs), by full id (get_snapshot_from_str, get_snapshots, get_snapshots mixed with a prefix), list all, list + dump a file of a live snapshot; every step is assigned to the cached handle (fresh Repository, cache_dir = per-case scratch dir) or the uncached handle on the same storage. Plant steps write into the cache directory: stale files (valid bytes of snapshot/index/pack files removed earlier in the history), truncated (k/256 of the valid bytes) and over-long (valid bytes + 1–399 bytes) files under existing ids (tree packs for packs), foreign files (non-hex / upper-case / 63- and 65-char names, `<id>-tmp-` leftovers, sub-directories, a directory where a cache file belongs, files under ids the repository never had). Reference = same history all uncached from a byte-identical fork of the initial storage. Non-trivial = at least one step through the cached handle after a mutating step through the uncached handle, or at least one effective plant followed by a step of the cached handle of a kind that lists or reads that file type; distinct by hash of the case.",
+        rule: "proptest: configuration x source tree x history of 3–11 (quick) / 3–18 (thorough) steps after an initial backup through the cached handle; half of the histories start with a churn (backup, forget the first snapshot, aggressive prune; each through a generated handle) so that removed snapshot/index/pack files exist early. Steps: backup of the edited source (with/without parent), forget of live snapshots, prune (generated options; 60 % forced to max-unused 0 / unlimited repack), check (read-data, trust-cache), snapshot lookup by `latest`/`latest~N`, by id prefix (8–40 hex chars; both lookup APIs), by full id (get_snapshot_from_str, get_snapshots, get_snapshots mixed with a prefix), list all, list + dump a file of a live snapshot; every step is assigned to the cached handle (fresh Repository, cache_dir = per-case scratch dir) or the uncached handle on the same storage. Plant steps write into the cache directory: stale files (valid bytes of snapshot/index/pack files removed earlier in the history), wrong-size files under existing ids (tree packs for packs): truncated (k/256 of the valid bytes), over-long (valid bytes + 1–399 bytes), other bytes of another length (0–2999); foreign files: non-hex / upper-case / 63- and 65-char names, `<id>-tmp-` leftovers, sub-directories, a directory where a cache file belongs, files under ids the repository never had (at their canonical place, directly in the type directory, or in another id's shard directory). Reference = same history all uncached from a byte-identical fork of the initial storage. Non-trivial = at least one step through the cached handle after a mutating step through the uncached handle, or at least one effective plant followed by a step of the cached handle of a kind that lists or reads that file type; distinct by hash of the case.",
         assumptions: vec![
             "results are compared by (snapshot time, tree id), found/not-found, sorted listings, hashes of ls output and dumped bytes, check verdict clean/errors: file ids contain random nonces and differ between the two runs",
             "the indexed blob set is compared exactly only if every prune of the history removes all unused blobs (max-unused 0, unlimited repack, no keep-pack); otherwise which unused blobs survive depends on pack ids; the reachable sets and reachable ⊆ indexed ⊆ existing packs are always compared",
             "id prefixes have at least 8 hex characters so that ambiguity does not depend on the random ids",
-            "same-size different-content cache files are not planted (outside the statement); over-long files are the valid bytes plus a suffix, truncated files are a prefix of the valid bytes",
+            "same-size different-content cache files are not planted (outside the statement); wrong-size files are a prefix of the valid bytes, the valid bytes plus a suffix, or other bytes of a different length",
             "cache ⊆ repository is judged for files at their canonical place <type dir>/<2 hex>/<64 hex> after every step of the cached handle during which the storage logged a listing of that type",
             "a persistent index hand-back race of check is counted as skipped, not judged",
         ],
